@@ -441,6 +441,10 @@ func (o OneOfSchema[KeyType]) findUnderlyingType(data any) (KeyType, Object, err
 // declaration.
 func (o OneOfSchema[KeyType]) validateSubtypeDiscriminatorInlineFields() error {
 	for key, typeValue := range o.TypesValue {
+		if ref, isRef := typeValue.(*RefSchema); isRef && !ref.ObjectReady() {
+			// A reference into a namespace that has not been applied yet. It is checked when that namespace is applied.
+			continue
+		}
 		typeValueDiscriminatorValue, hasDiscriminator := typeValue.Properties()[o.DiscriminatorFieldNameValue]
 		switch {
 		case !o.DiscriminatorInlined && hasDiscriminator:
